@@ -76,7 +76,7 @@ PROPS = {
                 bounds=["fee floor: universe of 2 (quick) / 3 (thorough) ordered denoms, node/chain/fee vectors any sub-set, prices and amounts < 2^128, gas full 64 bit", "system lane: 0..3 messages, exec nesting depth 2, inner lists 0..2", "free lane: whitelist 0..2 valid addresses, granter optional", "redundant relay: 0..2 messages, one configured executor"],
                 outside=["more denoms / messages than the bounds"], assumptions=COMMON_ASSUME + ["price vectors are valid DecCoins (sorted, unique, positive) as config parsing and Params.Validate guarantee", "whitelist entries are valid addresses (Params.Validate)"]),
     "C16": dict(runs=[oph("^Harness_C16_"), opc("^Harness_C16_")],
-                bounds=["states constructed through the keepers' own setters on an empty chain: L1: 0..1 (quick) / 0..2 (thorough) bridges with consecutive ids, each with 1..m batch infos, 0..m token pairs, outputs, claims; L2: 0..2 validators with powers, both sequences, bridge info present/absent, 0..m denom pairs", "all contents symbolic"],
+                bounds=["states constructed through the keepers' own setters on an empty chain: L1: 0..1 bridges, each with 1..2 batch infos, 0..m token pairs, outputs, claims (m = 1 quick / 2 thorough), and exactly two bridges with consecutive ids and at most one entry per collection (TwoBridges); L2: 0..2 validators with powers, both sequences, bridge info present/absent, 0..m denom pairs", "all contents symbolic"],
                 outside=["larger states", "JSON canonical form / byte-level encoding of the genesis file"], assumptions=COMMON_ASSUME),
     "C08": dict(runs=[dict(pkg="./x/opchild/keeper,./x/ophost/keeper",
                            overlays=[("./x/opchild/keeper", "harness/opchild"), ("./x/opchild/keeper", "harness/opchild_c08"), ("./x/ophost/keeper", "harness/ophost")],
